@@ -71,6 +71,71 @@ ORIGIN_S = z3.Loop(z3.Union(_rng("A", "Z"), _rng("a", "z"), _rng("0", "9"), *[z3
 MAX_BYTES = 512
 CANON_PREFIX = "vgi.proxy.proof.v1\x00"
 
+
+
+def live(name):
+    """The language of a live module charset regex (`.match`), as the verifier uses it."""
+    from pyvc import regex
+
+    return regex.language({"kid": pf._KID_RE, "ts": pf._TS_RE, "nonce": pf._NONCE_RE, "mac": pf._MAC_RE, "origin": pf._ORIGIN_RE}[name], "match")
+
+
+def prove(S, name, hyps, goal, kind="lemma"):
+    """An obligation proved from an explicit subset of the path condition (fewer hypotheses: sound).
+    Every hypothesis must literally be a conjunct of the current path condition."""
+    from pyvc.core import Obligation
+
+    ts = [boolterm(h) for h in hyps]
+    for t in ts:
+        if not any(z3.eq(t, c) for c in S.pc):
+            raise Unsupported(f"{name}: hypothesis is not a conjunct of the path condition: {str(t)[:120]}")
+    S.obligations.append(Obligation(name, ts, boolterm(goal), kind, "unsat", {"site": "explicit hypotheses"}, S.path_id, dict(S.inputs)))
+
+
+def _consts_and_apps(t):
+    """(names of uninterpreted constants, [(function name, first argument)] of uninterpreted applications) in a term."""
+    consts, apps, seen, stack = set(), [], set(), [t]
+    while stack:
+        x = stack.pop()
+        if x.get_id() in seen:
+            continue
+        seen.add(x.get_id())
+        if z3.is_app(x) and x.decl().kind() == z3.Z3_OP_UNINTERPRETED:
+            if x.num_args() == 0:
+                consts.add(x.decl().name())
+            else:
+                apps.append((x.decl().name(), x.arg(0)))
+        stack.extend(x.children())
+    return consts, apps
+
+
+def slice_hypotheses(ob, allowed_consts, utf8_only_of=None):
+    """Keep only the conjuncts of the path condition that speak about the given constants (and, if asked, apply
+    the utf8 functions to nothing but the given term).  Dropping hypotheses is sound; it keeps the query small."""
+    keep = []
+    for c in ob.pc:
+        consts, apps = _consts_and_apps(c)
+        if not consts <= allowed_consts:
+            continue
+        if utf8_only_of is not None and any(name.startswith("utf8_") and not z3.eq(arg, utf8_only_of) for name, arg in apps):
+            continue
+        keep.append(c)
+    ob.pc = keep
+
+
+def abstract_regex_atoms(S, ob):
+    """Replace every regex-membership atom of an obligation by an opaque boolean (the same atom -> the same
+    boolean).  The abstraction has more models, so `unsat` carries over: sound, and the query becomes
+    propositional + equality + arithmetic."""
+    was = getattr(S, "abstract_regex", False)
+    S.abstract_regex = True
+    try:
+        ob.pc = [S._prune_view(c) for c in ob.pc]
+        ob.goal = S._prune_view(ob.goal)
+    finally:
+        S.abstract_regex = was
+
+
 STR, INT, BOOL = z3.StringSort(), z3.IntSort(), z3.BoolSort()
 MACF = z3.Function("hmac_sha256", STR, STR, STR)  # mac(secret, canonical)
 DECODE = z3.Function("b64url_decode", STR, STR)
@@ -82,28 +147,49 @@ LABEL = z3.Function("secrets_label", STR, STR)
 GROUPS = ["malformed", "unknown_kid", "expired", "not_yet_valid", "bad_mac", "replayed"]
 
 
+def split_fields(S, token):
+    """§3: "left split on '.' into exactly 5 fields" - the engine's exact split model (witnesses are unique and
+    memoised per path, so the code's own split of the same value yields the same terms)."""
+    parts = models.split_single_char(S.interp, token.t, ".", SStr, False)
+    return SInt(parts.length), [parts.get(i) for i in range(5)]
+
+
+def field_ok(f):
+    """Step 4 per field, with the charsets read from the live module (unit L1 proves them equal to §3's)."""
+    return [SBool(z3.InRe(f[1].t, live("kid"))), SBool(z3.InRe(f[2].t, live("ts"))), SBool(z3.InRe(f[3].t, live("nonce"))), SBool(z3.InRe(f[4].t, live("mac")))]
+
+
+def syntax_ok(n, f):
+    """Steps 3 and 4 pass: exactly five fields, version v1, every field in its charset."""
+    return And(n == 5, eq(f[0], "v1"), *field_ok(f))
+
+
 def table(S, token, now, skew, origin, has_cache):
-    """§6 steps 2-9 for a present, single header value.  Returns (ordered [(reason, fails)], fields, claims)."""
+    """§6 steps 2-9 for a present, single header value: ordered [(reason, step name, fails)], fields, §9 claims."""
     ip = S.interp
     octets = models.encode_utf8(ip, token)
-    parts = models.split_single_char(ip, token.t, ".", SStr, False)  # §3: left split on '.'
-    n = SInt(parts.length)
-    f = [parts.get(i) for i in range(5)]
+    n, f = split_fields(S, token)
     version, kid, ts, nonce, mac = f
-    step2 = Or(SBool(z3.Length(token.t) == 0), SBool(z3.Length(octets.t) > MAX_BYTES))
-    step3 = Or(Not(n == 5), Not(eq(version, "v1")))
-    step4 = Or(Not(SBool(z3.InRe(kid.t, KID_S))), Not(SBool(z3.InRe(ts.t, TS_S))), Not(SBool(z3.InRe(nonce.t, NONCE_S))), Not(SBool(z3.InRe(mac.t, MAC_S))))
-    step5 = Not(SBool(HAS(kid.t)))
     tsv = SInt(z3.StrToInt(ts.t))
-    step6 = (now - tsv) > skew
-    step7 = (tsv - now) > skew
     enc = lambda x: models.encode_utf8(ip, x).t  # noqa: E731
     canonical = z3.Concat(z3.StringVal(CANON_PREFIX), enc(kid), z3.StringVal("\x00"), enc(ts), z3.StringVal("\x00"), enc(nonce), z3.StringVal("\x00"), enc(origin))
-    step8 = SBool(DECODE(mac.t) != MACF(SECRET(kid.t), canonical))
-    step9 = SBool(SEEN(nonce.t)) if has_cache else False
-    steps = [("malformed", Or(step2, step3, step4)), ("unknown_kid", step5), ("expired", step6), ("not_yet_valid", step7), ("bad_mac", step8), ("replayed", step9)]
+    steps = [
+        ("malformed", "2_empty", SBool(z3.Length(token.t) == 0)),
+        ("malformed", "2_longer_than_512_bytes", SBool(z3.Length(octets.t) > MAX_BYTES)),
+        ("malformed", "3_field_count", Not(n == 5)),
+        ("malformed", "3_version", Not(eq(version, "v1"))),
+        ("malformed", "4_kid_charset", Not(field_ok(f)[0])),
+        ("malformed", "4_ts_charset", Not(field_ok(f)[1])),
+        ("malformed", "4_nonce_charset", Not(field_ok(f)[2])),
+        ("malformed", "4_mac_charset", Not(field_ok(f)[3])),
+        ("unknown_kid", "5_kid_not_configured", Not(SBool(HAS(kid.t)))),
+        ("expired", "6_now_minus_ts_exceeds_skew", (now - tsv) > skew),
+        ("not_yet_valid", "7_ts_minus_now_exceeds_skew", (tsv - now) > skew),
+        ("bad_mac", "8_mac_mismatch", SBool(DECODE(mac.t) != MACF(SECRET(kid.t), canonical))),
+        ("replayed", "9_nonce_seen", SBool(SEEN(nonce.t)) if has_cache else SBool(z3.BoolVal(False))),
+    ]
     claims = {"verified": "true", "proxy": SStr(LABEL(kid.t)), "kid": kid, "origin_id": origin, "reason": "ok"}
-    return steps, {"n": n, "version": version, "kid": kid, "ts": ts, "nonce": nonce, "mac": mac, "step2": step2, "step3": step3, "step4": step4}, claims
+    return steps, {"n": n, "f": f, "ts": ts, "nonce": nonce}, claims
 
 
 _F = {"kid": r"[A-Za-z0-9_-]{1,64}", "ts": r"[0-9]{1,20}", "nonce": r"[A-Za-z0-9_-]{22}", "mac": r"[A-Za-z0-9_-]{43}"}
@@ -297,6 +383,7 @@ def install_externals(S, st, now, has_cache):
     min_obligations=150,
 )
 def verify_unit(S):
+    S.syntactic_pruning = True  # string-heavy path conditions: no solver calls while exploring (extra paths are vacuous)
     token = S.str("token")
     now, skew = S.int("now"), S.int("skew")
     origin = S.str("origin_id")
@@ -305,10 +392,18 @@ def verify_unit(S):
     S.inputs.update({"has_cache": has_cache, "now_given": now_given, "has_kid": False, "mac_matches": None, "nonce_seen": False})
     st = {}
     install_externals(S, st, now, has_cache)
-    steps, F, spec_claims = table(S, token, now, skew, origin, has_cache)
     secrets = SObj(None, kind="Secrets")
     cache = SObj(None, kind="NonceCache") if has_cache else None
+    n0 = len(S.pc)
+    split_fields(S, token)  # the split witnesses (the code's own token.split('.') reuses them)
+    split_axioms = {c.get_id() for c in S.pc[n0:]}
     out = S.outcome(pf.verify_proof, token, secrets=secrets, origin_id=origin, skew_seconds=skew, nonce_cache=cache, now=now if now_given else None)
+    steps, F, spec_claims = table(S, token, now, skew, origin, has_cache)
+    # instances of lemmas proved for every string in unit L2: a value passing steps 3-4 is a §3 token, hence ASCII and non-empty
+    in_grammar = SBool(z3.InRe(token.t, GRAMMAR))
+    S.assume(Implies(syntax_ok(F["n"], F["f"]), in_grammar))  # L2.well_formed_values_are_in_the_grammar
+    S.assume(Implies(in_grammar, SBool(z3.InRe(token.t, models.ASCII_RE))))  # L2.R2
+    S.assume(Implies(in_grammar, Not(SBool(z3.Length(token.t) == 0))))  # L2.R3
 
     # O2: nothing but ProofError escapes
     if out.raised:
@@ -324,21 +419,14 @@ def verify_unit(S):
         reason = "ok"
     idx = GROUPS.index(reason) if reason != "ok" else len(GROUPS)
 
-    # token-grammar lemmas (the declarative §3 format vs the operational split + charset steps)
-    in_grammar = SBool(z3.InRe(token.t, GRAMMAR))
-    if reason == "malformed":
-        S.oblige("L.malformed_only_outside_the_token_grammar", Or(Not(in_grammar), F["step2"]), kind="lemma")
-    else:
-        S.lemma("L.accepted_syntax_is_the_token_grammar", in_grammar)
-        S.lemma("L.grammar_tokens_are_ascii", SBool(z3.InRe(token.t, models.ASCII_RE)))
-
-    # O1: first failing step
-    for j, (r, fails) in enumerate(steps):
+    # O1: the reason is that of the first failing step
+    for r, name, fails in steps:
+        j = GROUPS.index(r)
         if j < idx:
-            S.oblige(f"O1.{reason}.step_{r}_passes", Not(fails))
-        elif j == idx:
-            S.oblige(f"O1.{reason}.step_{r}_fails", fails)
-    if reason == "ok":
+            S.oblige(f"O1.{reason}.step_{name}_passes", Not(fails))
+    if reason != "ok":
+        S.oblige(f"O1.{reason}.a_step_with_this_reason_fails", Or(*[fails for r, _, fails in steps if r == reason]))
+    else:
         c = out.value
         S.oblige("O1.ok.returns_the_claims_mapping", isinstance(c, dict) and set(c.keys()) == set(spec_claims.keys()), kind="post")
         if isinstance(c, dict) and set(c.keys()) == set(spec_claims.keys()):
@@ -352,13 +440,80 @@ def verify_unit(S):
         S.oblige("O5.nonce_consulted_at_most_once", len(checks) == 1, kind="trace")
         S.oblige("O5.nonce_consulted_only_after_the_mac_comparison", "compare" in names and names.index("compare") < names.index("nonce_check"), kind="trace")
         S.oblige("O5.nonce_consulted_only_when_the_mac_matched", And(*[e[1] for e in compares]) if compares else False, kind="trace")
-        S.oblige("O5.nonce_consulted_only_when_steps_1_to_8_pass", And(*[Not(fails) for r, fails in steps[:5]]), kind="trace")
         S.oblige("O5.the_tokens_nonce_is_what_is_recorded", eq(checks[0][1], F["nonce"]), kind="trace")
-    if reason in ("ok", "replayed") and has_cache:
-        S.oblige("O5.cache_is_consulted_for_every_mac_verified_token", len(checks) == 1, kind="trace")
-    if reason in GROUPS[:5]:
+    if reason in ("ok", "replayed"):
+        # (that steps 2-8 pass on these paths is O1 above)
+        S.oblige("O5.cache_is_consulted_for_every_mac_verified_token", len(checks) == (1 if has_cache else 0), kind="trace")
+    else:
         S.oblige("O5.failed_token_never_reaches_the_nonce_cache", len(checks) == 0, kind="trace")
     S.canary("O1.canary.never_malformed", SBool(z3.BoolVal(reason != "malformed")))
+    # The table obligations treat the five fields as opaque values: the split axioms are not needed (all that is
+    # used about the split is the L2 lemma instance above), so they are dropped from the hypotheses (sound: fewer).
+    fields = {"token", str(F["n"].t), *[str(x.t) for x in F["f"]]}
+    for ob in S.obligations:
+        ob.pc = [c for c in ob.pc if c.get_id() not in split_axioms]
+        if ob.name.endswith("canary.never_malformed"):
+            slice_hypotheses(ob, {"token"}, utf8_only_of=z3.StringVal(""))  # what the path says about the value alone (e.g. longer than 512)
+        elif ".step_2_" in ob.name or ob.name.endswith("malformed.a_step_with_this_reason_fails"):
+            slice_hypotheses(ob, fields, utf8_only_of=token.t)  # header length / emptiness: about the value and its fields only
+            if ".step_2_" in ob.name:
+                abstract_regex_atoms(S, ob)  # follows from the lemma instances by propositional + equality reasoning
+        elif ob.name.endswith("canary.accepts_only_fresh_timestamps"):
+            slice_hypotheses(ob, {str(F["ts"].t), "now", "skew"})
+        elif ob.name.endswith("int_called_on_ascii_digits_only") or ob.name.endswith("unb64_called_on_43_base64url_characters"):
+            slice_hypotheses(ob, _consts_and_apps(ob.goal)[0])  # a charset fact about one field
+
+
+# ---------------------------------------------------------------------------------------------
+# L2: the split + charset formulation of steps 3-4 is the §3 token grammar (case analysis, lean context)
+# ---------------------------------------------------------------------------------------------
+
+L2_CASES = ["well_formed", "count", "version", "kid", "ts", "nonce", "mac", "regular"]
+
+
+@unit("C22.L2 steps 3-4 (split + live charsets) = the §3 token grammar v1.<kid>.<ts>.<nonce>.<mac>; such tokens are ASCII and non-empty", targets=["docs/proxy-proof-spec.md §3 (oracle consistency)", "vgi_rpc/http/_proof.py::_KID_RE/_TS_RE/_NONCE_RE/_MAC_RE"], min_obligations=10)
+def grammar_unit(S):
+    S.syntactic_pruning = True
+    token = S.str("token")
+    n, f = split_fields(S, token)
+    facts = models.split_facts(S, token.t, ".")
+    case = L2_CASES[S.choose(len(L2_CASES))]
+    in_grammar = SBool(z3.InRe(token.t, GRAMMAR))
+    ok = [n == 5, eq(f[0], "v1"), *field_ok(f)]
+    if case == "regular":  # facts about the grammar as a regular language (one string variable, no hypotheses)
+        five = z3.Concat(*([z3.Star(z3.Union(_rng("\x00", "-"), _rng("/", chr(0x2FFFF)))), DOT] * 4 + [z3.Star(z3.Union(_rng("\x00", "-"), _rng("/", chr(0x2FFFF))))]))
+        prove(S, "L2.R1.grammar_tokens_have_exactly_five_dot_separated_fields", [], Implies(in_grammar, SBool(z3.InRe(token.t, five))))
+        prove(S, "L2.R2.grammar_tokens_are_ascii", [], Implies(in_grammar, SBool(z3.InRe(token.t, models.ASCII_RE))))
+        prove(S, "L2.R3.grammar_tokens_are_not_empty", [], Implies(in_grammar, Not(SBool(z3.Length(token.t) == 0))))
+        from pyvc.core import Obligation
+
+        S.obligations.append(Obligation("L2.canary.every_string_is_a_token", [], boolterm(in_grammar), "canary", "sat", {}, S.path_id, dict(S.inputs)))
+        return
+    if case == "count":
+        # n != 5  =>  not in the grammar: the count fact for k = 5 (n = 5 <=> exactly four dots) and R1
+        S.assume(Not(n == 5))
+        prove(S, "L2.not_in_the_grammar.field_count", [facts["count"][5], Not(n == 5)], Not(in_grammar))
+        return
+    if case == "well_formed":
+        for c in ok:
+            S.assume(c)
+        prove(S, "L2.well_formed_values_are_in_the_grammar", [facts["parts"][5], *ok], in_grammar)
+        return
+    i = ["version", "kid", "ts", "nonce", "mac"].index(case) + 1
+    hyps = [*ok[:i], Not(ok[i])]
+    for c in hyps:
+        S.assume(c)
+    if case == "version":
+        # two small steps: the value does not start with "v1." (word equation), every grammar token does (regular)
+        starts = SBool(z3.PrefixOf(z3.StringVal("v1."), token.t))
+        prove(S, "L2.version.value_does_not_start_with_v1_dot", [facts["parts"][5], *hyps], Not(starts))
+        prove(S, "L2.version.grammar_tokens_start_with_v1_dot", [], Implies(in_grammar, starts))
+        S.assume(Not(starts))
+        S.assume(Implies(in_grammar, starts))
+        prove(S, "L2.not_in_the_grammar.version", [Not(starts), Implies(in_grammar, starts)], Not(in_grammar))
+        return
+    # the first failing check is a charset (z3 decides these on the regular expressions and the word equation)
+    prove(S, f"L2.not_in_the_grammar.{case}", [facts["parts"][5], *hyps], Not(in_grammar))
 
 
 # ---------------------------------------------------------------------------------------------
@@ -551,8 +706,10 @@ def _split_model_check(strings):
         sol.set("timeout", 5000)
         sol.add(*got["pc"])
         sol.add(got["t"] == z3.StringVal(s))
-        k = min(len(want), models.SPLIT_EXACT_PARTS)
-        agree = z3.And(got["n"] == len(want), *[got["parts"][i] == z3.StringVal(want[i]) for i in range(k)])
+        K = models.SPLIT_EXACT_PARTS
+        k = min(len(want), K)
+        count_ok = got["n"] == len(want) if len(want) <= K else got["n"] > K  # beyond K parts the model only says "more than K"
+        agree = z3.And(count_ok, *[got["parts"][i] == z3.StringVal(want[i]) for i in range(k)])
         if sol.check() != z3.sat:
             failures.append(f"{s!r}: model axioms unsatisfiable")
             continue
